@@ -34,6 +34,7 @@ func runC03(p *core.Program, r *core.Report) {
 	typedPushRule(p, r, e, "R3.7") // every numeric kind a literal can be retyped to is pushed as that kind
 	c03Admission(p, r, e)
 	r.Floor("R3.1", 27+8)
+	stackFieldBalanceRule(p, r, "R3.5", "checker", "visitor", "collections")
 	r.Floor("R3.3", 3)
 	r.Floor("R3.5", 23)
 	r.Floor("R3.7", 2)
